@@ -262,6 +262,34 @@ static void far_one(const Fn *f, int k, int dest_high, long r_el, int len_el) {
     if (memcmp(D, Dn, dmax_el * w)) report(f, "result-differs-from-the-same-copy-between-neighbouring-operands", rel, cs);
 }
 
+/* operands at low addresses (memory mapped at vm.mmap_min_addr; the static data of a non-PIE program is not far above): a count whose size in bytes
+ * exceeds the numeric address of dest makes "dest - count" wrap below zero.  The same layout is run in ordinary memory; return value and the whole
+ * region must agree. */
+static unsigned char *low_area, *low_ref; static size_t low_sz;
+static int low_init(void) {
+    long minaddr = 65536; FILE *mf = fopen("/proc/sys/vm/mmap_min_addr", "r"); if (mf) { if (fscanf(mf, "%ld", &minaddr) != 1) minaddr = 65536; fclose(mf); }
+    if (minaddr < 4096) minaddr = 4096;
+    low_sz = 1 << 20;
+    low_area = mmap((void *)minaddr, low_sz, PROT_READ | PROT_WRITE, MAP_PRIVATE | MAP_ANONYMOUS | MAP_FIXED_NOREPLACE, -1, 0);
+    if (low_area == MAP_FAILED) return -1;
+    low_ref = mmap(NULL, low_sz, PROT_READ | PROT_WRITE, MAP_PRIVATE | MAP_ANONYMOUS, -1, 0);
+    return low_ref == MAP_FAILED ? -1 : 0;
+}
+static void low_one(const Fn *f, long r_el, int len_el) {
+    int w = f->w; size_t span = (size_t)(3 * (size_t)len_el + 64) * w; if (span > low_sz) return;
+    long doff = ((r_el < 0 ? -r_el : 0) + 16) * w, soff = doff + r_el * w;      /* dest as low as the layout allows */ if (soff < 0 || (size_t)soff + (size_t)len_el * w > span) return;
+    char cs[200]; snprintf(cs, sizeof cs, "%s low %ld %d", f->name, r_el, len_el);
+    long rr = 0, rl = 0; int faulted = 0, e1 = 0x5a5a, e2 = 0x5a5a; n_cases++;
+    for (int pass = 0; pass < 2; pass++) { unsigned char *m = pass ? low_area : low_ref; for (size_t i = 0; i < span; i++) m[i] = (unsigned char)(i * 13 + (i >> 9) + 1); }
+    h_n = 0; rr = (int)far_call(f, low_ref + doff, len_el, low_ref + soff, len_el, &e1); int hr = h_n;
+    h_n = 0; if (sigsetjmp(jb, 1) == 0) { armed = 1; rl = (int)far_call(f, low_area + doff, len_el, low_area + soff, len_el, &e2); armed = 0; } else faulted = 1;
+    long ar = r_el < 0 ? -r_el : r_el; char rel[96]; snprintf(rel, sizeof rel, "low-address,%s,%s", ar == 0 ? "same" : ar < len_el ? "overlapping" : "disjoint", r_el < 0 ? "src-below-dest" : "src-above-dest");
+    if (verbose) printf("ordinary memory: rc=%ld handler=%d   at %p: rc=%ld handler=%d fault=%d\n", rr, hr, (void *)(low_area + doff), rl, h_n, faulted);
+    if (faulted) { report(f, "fault", rel, cs); return; }
+    if (rl != rr) { report(f, rr == 404 ? "overlap-not-reported" : rl == 404 ? "disjoint-operands-rejected-as-overlapping" : "outcome-differs-from-the-same-call-in-ordinary-memory", rel, cs); return; }
+    if (memcmp(low_area, low_ref, span)) report(f, "result-differs-from-the-same-call-in-ordinary-memory", rel, cs);
+}
+
 /* long overlapping moves: every shift of src against dest in [-SH, +SH] bytes, every length up to LM bytes, every start alignment:
  * reaches the word loops, their unrolled blocks and the byte tails of the move primitives, which the small arena cannot */
 static unsigned char *mv_area;
@@ -330,11 +358,12 @@ int main(int argc, char **argv) {
     page = mmap(NULL, 4 * PG, PROT_NONE, MAP_PRIVATE | MAP_ANONYMOUS, -1, 0); mprotect(page + PG, 2 * PG, PROT_READ | PROT_WRITE);
     static char alt[1 << 15]; stack_t sst = { .ss_sp = alt, .ss_size = sizeof alt }; sigaltstack(&sst, NULL);
     struct sigaction sa; memset(&sa, 0, sizeof sa); sa.sa_sigaction = on_segv; sa.sa_flags = SA_SIGINFO | SA_ONSTACK | SA_NODEFER; sigaction(SIGSEGV, &sa, NULL);
-    if (argc >= 7 && !strcmp(argv[1], "replay")) {
+    if (argc >= 6 && !strcmp(argv[1], "replay")) {
         verbose = 1; const Fn *f = NULL; for (int i = 0; i < NF; i++) if (!strcmp(fns[i].name, argv[2])) f = &fns[i];
         if (!f) return 2;
         if (!strcmp(argv[3], "bytes")) { byte_shift(f, atol(argv[4]), atoi(argv[5])); }
         else if (!strcmp(argv[3], "move")) { long_move(f, atoi(argv[4]), atoi(argv[5]), atoi(argv[6])); }
+        else if (!strcmp(argv[3], "low")) { if (low_init()) { printf("cannot map memory at the lowest permitted address\n"); return 2; } low_one(f, atol(argv[4]), atoi(argv[5])); }
         else if (!strcmp(argv[3], "far")) { if (far_init()) { printf("cannot place the mappings\n"); return 2; } far_one(f, atoi(argv[4]), atoi(argv[5]), atol(argv[6]), atoi(argv[7])); }
         else if (f->fam == F_CCPY) { bosmode = atoi(argv[9]); g_c = atol(argv[10]); one_ccpy(f, atoi(argv[3]), strtoul(argv[4], 0, 10), atoi(argv[5]), atoi(argv[6]), atoi(argv[7]), atoi(argv[8])); }
         else { bosmode = argc > 9 ? atoi(argv[9]) : 0; one(f, atoi(argv[3]), strtoul(argv[4], 0, 10), atoi(argv[5]), atoi(argv[6]), atoi(argv[7]), atoi(argv[8])); }
@@ -346,6 +375,18 @@ int main(int argc, char **argv) {
         int LM = atoi(argv[2]); long shard = atol(argv[3]), nsh = atol(argv[4]); long idx = 0;
         for (int fi = 0; fi < NF; fi++) { const Fn *f = &fns[fi]; if ((f->fam != F_MOVE && f->fam != F_MEM) || f->w == 1) continue;
             for (int len = 1; len <= LM; len++) { if ((idx++ % nsh) != shard) continue; for (long shb = -(long)len * f->w - 5; shb <= (long)len * f->w + 5; shb++) byte_shift(f, shb, len); } }
+        for (int i = 0; i < nsig; i++) printf("{\"t\":\"viol\",\"sig\":\"%s\",\"n\":%ld,\"case\":\"%s\"}\n", sigs[i], sigcnt[i], sigcase[i]);
+        printf("{\"t\":\"stat\",\"layouts\":%ld,\"zone_disjoint\":0,\"zone_must_report\":0,\"zone_either\":0,\"dest_unterminated\":0,\"violating\":%ld}\n", n_cases, n_viol);
+        return 0;
+    }
+    if (!strcmp(argv[1], "low")) {              /* low <unused> <shard> <n> */
+        long shard = atol(argv[3]), nsh = atol(argv[4]); long idx = 0;
+        if (low_init()) { fprintf(stderr, "cannot map memory at the lowest permitted address\n"); return 2; }
+        static const int LEN[] = { 3, 300, 1100, 2048, 5000, 40000 };
+        for (int fi = 0; fi < NF; fi++) { const Fn *f = &fns[fi]; if (f->fam != F_MEM && f->fam != F_MOVE) continue;
+            for (int li = 0; li < 6; li++) { int len = LEN[li]; if ((idx++ % nsh) != shard) continue;
+                long rs[] = { 0, 1, 2, len / 2, len - 1, len, len + 1, len + 7 };
+                for (int ri = 0; ri < 8; ri++) for (int sg = 0; sg < 2; sg++) { if (!rs[ri] && sg) continue; low_one(f, sg ? -rs[ri] : rs[ri], len); } } }
         for (int i = 0; i < nsig; i++) printf("{\"t\":\"viol\",\"sig\":\"%s\",\"n\":%ld,\"case\":\"%s\"}\n", sigs[i], sigcnt[i], sigcase[i]);
         printf("{\"t\":\"stat\",\"layouts\":%ld,\"zone_disjoint\":0,\"zone_must_report\":0,\"zone_either\":0,\"dest_unterminated\":0,\"violating\":%ld}\n", n_cases, n_viol);
         return 0;
